@@ -470,10 +470,11 @@ ScanFlow(inp, s0, double) ==
   IN  IF ns.err THEN ScanErr(ns.s) ELSE FlowLoop(inp, ns.s, double, Peek(inp, s0, 0), ns.chunks)
 
 (* ---------------------------- scan_plain ------------------------------- *)
+ColonFollow == {44, 91, 93, 123, 125}            \* ',[]{}': after ':' these end a plain scalar in flow context
 RECURSIVE PlainLen(_, _, _, _)
 PlainLen(inp, s, k, flow) ==
   LET ch == Peek(inp, s, k)
-  IN  IF ch \in WsNul \/ (ch = COLON /\ Peek(inp, s, k + 1) \in WsNul \cup (IF flow THEN {44, 91, 93, 123, 125} ELSE {}))
+  IN  IF ch \in WsNul \/ (ch = COLON /\ Peek(inp, s, k + 1) \in WsNul \cup (IF flow THEN ColonFollow ELSE {}))
          \/ (flow /\ ch \in FlowInd)
       THEN k ELSE PlainLen(inp, s, k + 1, flow)
 
@@ -534,6 +535,28 @@ TokenKind(inp, s, flow) ==
       ELSE IF ch = DQ THEN "double"
       ELSE IF ch \notin PlainStartExcl \/ (~nxWs /\ (ch = DASH \/ (~flow /\ ch \in {QM, COLON}))) THEN "plain"
       ELSE "error"
+
+(***************************************************************************)
+(* The characters that either side treats specially at some position -     *)
+(* the union of the literal sets above, per side and position class.  The  *)
+(* bounded instances take their alphabet from here (MC_Scalars.IndMax), so *)
+(* that every such character is a symbol of its own in the first, an inner *)
+(* and the last position of a text in every context: the emitter's and the *)
+(* scanner's sets have to agree there, and a change to one literal set on  *)
+(* one side only is a different behaviour inside the explored space.       *)
+(* (The block scalar header characters + - 1..9 are special only after the *)
+(* | or > the emitter itself writes; no character of a text gets there.)   *)
+(***************************************************************************)
+AnFirstInd == LeadInd \cup {QM, COLON, DASH}     \* analyze_scalar, index = 0
+AnInnerInd == FlowInd \cup {COLON, HASH}         \* analyze_scalar, index > 0
+AnMarkInd  == {DASH, DOT}                        \* analyze_scalar: text.startswith('---') / ('...')
+WrQuoteInd == {SQ, DQ, BSL}                      \* write_single_quoted / write_double_quoted
+ScFirstInd == PlainStartExcl \ WsNul             \* fetch_more_tokens / check_plain, check_key, check_value, check_block_entry
+ScInnerInd == FlowInd \cup ColonFollow \cup {COLON, HASH}    \* scan_plain
+ScMarkInd  == {DASH, DOT, PCT}                   \* check_document_start / check_document_end / check_directive
+ScQuoteInd == {SQ, DQ, BSL}                      \* scan_flow_scalar_non_spaces
+Indicators == AnFirstInd \cup AnInnerInd \cup AnMarkInd \cup WrQuoteInd
+              \cup ScFirstInd \cup ScInnerInd \cup ScMarkInd \cup ScQuoteInd
 
 \* the next token at s, when it is a scalar: value and the reader state after it
 ScanScalarToken(inp, s, flow, pind) ==
